@@ -30,6 +30,27 @@ Definition write_times (o : list tout) : list Z :=
 Definition S05 (cap q fi : Z) (tr : list thstep_t) : bool :=
   windows_ok cap q fi (write_times (flat_map snd tr)).
 
+(* The property as stated, in configured units (no reference to the library's quantum or
+   fill interval): every window [a, b] of forwarded writes holding n frames satisfies
+     n <= bucket_frames + 2 + 1.010000001 * (minFrames / minRefill) * (b - a),
+   i.e. bucket size plus the refill earned, within the library's 1 % rate margin and 2
+   frames of tick quantisation.  Written without division:
+     (n - (bucket_frames + 2)) * minRefill_ns * 10^9 <= 1010000001 * minFrames * (b - a). *)
+Fixpoint win_from_sec (bf mf rf t0 cnt : Z) (ts : list Z) : bool :=
+  match ts with
+  | [] => true
+  | t :: r => ((cnt + 1 - (bf + 2)) * rf * 1000000000 <=? 1010000001 * mf * (t - t0)) && win_from_sec bf mf rf t0 (cnt + 1) r
+  end.
+
+Fixpoint windows_sec_ok (bf mf rf : Z) (ts : list Z) : bool :=
+  match ts with
+  | [] => true
+  | t0 :: r => win_from_sec bf mf rf t0 0 ts && windows_sec_ok bf mf rf r
+  end.
+
+Definition S05sec (bucket_frames minframes refill_ns : Z) (tr : list thstep_t) : bool :=
+  windows_sec_ok bucket_frames minframes refill_ns (write_times (flat_map snd tr)).
+
 (* the library's (quantum, fillInterval) realise at most (1 + 1/100 + 10^-9) times the
    configured rate  minFrames / minRefill :   q * refill_ns * 10^9 <= 1010000001 * minFrames * fi *)
 Definition rate_ok (q fi minframes refill_ns : Z) : bool :=
